@@ -31,8 +31,26 @@ claim("C10", SIM + "; oracle: shadow execution of an independent reference imple
       "trusted: refotr as a faithful reading of the OTR v2/v3 specification (DESIGN.md appendix B), Go stdlib crypto (shared by both implementations)",
       "DESIGN.md section 5 C10")
 
+claim("C02", SIM + "; oracle: provenance of every returned plaintext and of every TLV effect (harness knows what each party emitted, what the attacker changed, which session it belongs to)",
+      "An attacker with 22 structure-aware data-message mutators (every field, bit flips, truncation/extension, armour damage, re-MAC with every MAC key disclosed on the wire, of pairs the victim has retired, or of other sessions; fresh forgeries), replay and clear-text injection acts on PRNG-chosen messages in flight in PRNG-generated sessions. "
+      "Every plaintext returned must be the text of an authentic, unmodified message of the current session; messages whose authenticated range or MAC changed must yield no plaintext, no SMP/security/key event and no data reply.",
+      "trusted: harness bookkeeping of wire provenance, refotr for key derivation; tolerant reading of the unauthenticated remainder (bytes after the MAC) is accepted either way",
+      "DESIGN.md section 5 C02")
+
+claim("C05", SIM + "; oracle: exactly-once accounting on unique texts, no-effect rule for re-deliveries of accepted messages",
+      "Duplicating/reordering network with an archive of all wire messages and fragments; PRNG-chosen duplication, out-of-order delivery and replay (at once, after more traffic and rotations, after End + new AKE), including TLV-only messages. "
+      "Each text is returned at most once per receiver; a re-delivered data message that was accepted before yields no plaintext, no SMP/security/key event, no data reply.",
+      "trusted: harness bookkeeping; uniqueness of generated texts",
+      "DESIGN.md section 5 C05")
+
+claim("C06", SIM + "; oracle: twin-run behavioural equality (same continuation with and without the rejected message, victim's randomness rewound)",
+      "A pair is driven to a PRNG-chosen state (plaintext, AKE stages, fresh, rotated, SMP pending, finished, refresh in progress); one rejected message X (9 classes: mutated/forged/replayed data, replayed/mutated AKE, version, tags, garbage, stray fragments) is delivered, then a PRNG-generated continuation of genuine traffic runs; a twin world runs the same continuation without X. "
+      "The observation sequences (plaintext, error, events, IsEncrypted, SSID/fingerprint while encrypted, kinds of emitted messages) must be equal.",
+      "trusted: harness; the rejection criterion is the statement's own (no plaintext, nothing to send but an optional OTR error); a well-formed message from another valid peer instance that binds an unbound conversation is not a rejection case (C15)",
+      "DESIGN.md section 5 C06")
+
 _todo = "check not built yet in this session (see DESIGN.md section 12 build order)"
-for pid in ["C01", "C02", "C03", "C05", "C06", "C09", "C11", "C12", "C13", "C14", "C15", "C16", "C18", "C19", "C20"]:
+for pid in ["C01", "C03", "C09", "C11", "C12", "C13", "C14", "C15", "C16", "C18", "C19", "C20"]:
     NA[pid] = _todo
 NA["C17"] = ("pure function of one input (parse(serialise(x)) = x): no schedule, clock, fault, peer or history for a simulator to vary; "
              "deterministic simulation does not apply (DESIGN.md section 5 C17)")
